@@ -97,6 +97,7 @@ type Faults struct {
 	CrashEvery int   `json:"crash_every,omitempty"` // take a kill image at every k-th persistence event (1 = all)
 	Power      bool  `json:"power,omitempty"`       // also build power-loss images
 	Torn       bool  `json:"torn,omitempty"`
+	TornEvery  int   `json:"torn_every,omitempty"`
 	ClockJumps []int `json:"clock_jumps,omitempty"` // seconds, consumed by "clock" ops
 }
 
